@@ -255,8 +255,13 @@ def r143(repo, ctx):
                         if isinstance(cond, ast.Compare) and isinstance(cond.ops[0], (ast.Eq, ast.Is)) and 'description' in U.src(cond):
                             ident = True
             uses_pre = [nm for s in node.body for nm in ast.walk(s) if isinstance(nm, ast.Name)]
+            # a call of a local callable (a function object taken from a table): its body is not in this branch
+            opaque = [U.src(c)[:50] for s_ in node.body for c in ast.walk(s_) if isinstance(c, ast.Call) and isinstance(c.func, ast.Name)
+                      and c.func.id not in ('range', 'len', 'isinstance', 'max', 'min', 'sum', 'float', 'int', 'abs')]
             if good:
                 ctx.ok('R14.3', EULER, q, node, f'{X}: occupied sites are summed over all phases of the same site type', construct=f'{X} branch')
+            elif not comps and opaque:
+                ctx.undecided('R14.3', EULER, q, node, f'{X}: the sum over the occupied sites is not in this branch (it is produced by {opaque[0]}, which was not resolved)')
             else:
                 ctx.violation('R14.3', EULER, q, node, f'{X}: the occupied sites are not summed over every phase whose site type is {X} (selected by the same class test as the branch): '
                               'precipitates of another phase on the same sites no longer reduce the available sites', construct=f'{X} branch')
